@@ -1,0 +1,118 @@
+// Copyright 2021-2022 Buf Technologies, Inc.
+//
+// Licensed under the Apache License, Version 2.0 (the "License");
+// you may not use this file except in compliance with the License.
+// You may obtain a copy of the License at
+//
+//      http://www.apache.org/licenses/LICENSE-2.0
+//
+// Unless required by applicable law or agreed to in writing, software
+// distributed under the License is distributed on an "AS IS" BASIS,
+// WITHOUT WARRANTIES OR CONDITIONS OF ANY KIND, either express or implied.
+// See the License for the specific language governing permissions and
+// limitations under the License.
+
+//go:build verif
+
+package connect
+
+import (
+	"bytes"
+	"sync"
+	"sync/atomic"
+)
+
+// Runtime-verification hooks, compiled in only with the verif build tag.
+//
+// H1 (buffer pool): every buffer released to a pool is overwritten with a
+// poison pattern over its whole capacity, so that any use after release shows
+// up as a corrupted payload, and a table of the buffers currently sitting in a
+// pool detects double releases.
+//
+// H2 (yield points): named points in duplexHTTPCall at which an installed
+// function is called, so that a harness can delay one side of a call and
+// record which interleavings it produced.
+
+// VerifPoison is the byte written over released buffers.
+const VerifPoison = 0xDB
+
+type verifYieldFunc func(point string)
+
+var (
+	verifYieldValue atomic.Value // of verifYieldFunc
+
+	verifPoolMu        sync.Mutex
+	verifPoolInPool    = make(map[*bytes.Buffer]struct{})
+	verifPoolGets      uint64
+	verifPoolPuts      uint64
+	verifPoolReused    uint64
+	verifPoolDoublePut uint64
+	verifPoolReport    func(kind string)
+)
+
+const verifPoolTableMax = 1 << 14
+
+// VerifSetYield installs (or, with nil, removes) the function called at the
+// named yield points.
+func VerifSetYield(f func(point string)) {
+	verifYieldValue.Store(verifYieldFunc(f))
+}
+
+// VerifSetPoolReport installs a callback for pool-discipline violations.
+func VerifSetPoolReport(f func(kind string)) {
+	verifPoolMu.Lock()
+	verifPoolReport = f
+	verifPoolMu.Unlock()
+}
+
+// VerifPoolStats returns the number of pool Gets, Puts, Gets that returned a
+// recycled buffer, and double releases observed so far.
+func VerifPoolStats() (gets, puts, reused, doublePuts uint64) {
+	verifPoolMu.Lock()
+	defer verifPoolMu.Unlock()
+	return verifPoolGets, verifPoolPuts, verifPoolReused, verifPoolDoublePut
+}
+
+func verifYield(point string) {
+	if f, ok := verifYieldValue.Load().(verifYieldFunc); ok && f != nil {
+		f(point)
+	}
+}
+
+func verifPoolGet(buffer *bytes.Buffer) {
+	verifPoolMu.Lock()
+	verifPoolGets++
+	if _, ok := verifPoolInPool[buffer]; ok {
+		verifPoolReused++
+		delete(verifPoolInPool, buffer)
+	}
+	verifPoolMu.Unlock()
+}
+
+func verifPoolPut(buffer *bytes.Buffer) {
+	// The buffer is being released: nobody may look at its contents again.
+	buffer.Reset()
+	raw := buffer.Bytes()
+	raw = raw[:cap(raw)]
+	for i := range raw {
+		raw[i] = VerifPoison
+	}
+	verifPoolMu.Lock()
+	verifPoolPuts++
+	var report func(string)
+	if _, ok := verifPoolInPool[buffer]; ok {
+		verifPoolDoublePut++
+		report = verifPoolReport
+	} else {
+		if len(verifPoolInPool) >= verifPoolTableMax {
+			// Buffers dropped by sync.Pool during GC never leave the table, so
+			// forget everything now and then. Forgetting only loses detections.
+			verifPoolInPool = make(map[*bytes.Buffer]struct{})
+		}
+		verifPoolInPool[buffer] = struct{}{}
+	}
+	verifPoolMu.Unlock()
+	if report != nil {
+		report("double-put")
+	}
+}
